@@ -59,7 +59,9 @@ def run(c):
     report(c, r)
     runs = [("trees-5", trees_cfg(5 if c.quick else 6, 1 if c.quick else 2, ALLKINDS, {"prod", "sum", "diff", "lt"})),
             ("trees-7-chains", trees_cfg(7, 1 if c.quick else 2, {"var", "lit", "app", "bin", "neg"}, {"prod", "diff"} if c.quick else {"prod", "quot", "diff"})),
-            ("trees-6-binders", trees_cfg(6, 1, {"var", "type", "app", "lam", "pi", "ndpi", "let", "if"}, {"sum"}))]
+            ("trees-6-binders", trees_cfg(6, 1, {"var", "type", "app", "lam", "pi", "ndpi", "let", "if"}, {"sum"})),
+            # every operator family: chains of up to four literal operands with grouped operands anywhere
+            ("trees-7-arith", trees_cfg(7, 1 if c.quick else 2, {"lit", "bin"}, {"prod", "quot", "sum", "diff"}))]
     for name, cfg in runs:
         s2 = vf.tlc_generate("MC_Trees", cfg, name, timeout=6000, workers=14)
         c.add_tlc(s2, "all syntax trees (%s) unparsed; generation" % name)
